@@ -72,8 +72,7 @@ def run_mincost(case):
         supplies = [0] * n
         supplies[case["s"]] += case["demand"]
         supplies[case["t"]] -= case["demand"]
-    pairs = [(u, v) for u, v, _, _ in case["arcs"]]
-    if len(set(pairs)) == len(pairs) and case["s"] != case["t"]:
+    if case["s"] != case["t"]:      # parallel arcs are part of C09's domain for network_simplex too
         try:
             r = network_simplex(n, [tuple(a) for a in case["arcs"]], [float(x) for x in supplies] if case.get("float_supplies") else list(supplies))
             events.append(_cost_event("network_simplex", r, {i: i for i in range(n)}))
@@ -352,6 +351,30 @@ def gen_mincost(rng, nmax=8, general=False):
     else:
         case["demand"] = rng.randint(0, 6)
     return case
+
+
+def gen_mincost_longroute(rng):
+    """a cheap route of 4-6 hops whose nodes are numbered against the scan order of the node set (sink 0, source highest), plus
+    costlier shortcut arcs into its middle and end: Bellman-Ford needs one relaxation round per hop, and a node's distance keeps
+    improving through an unchanged parent arc in late rounds"""
+    k = rng.randint(4, 6)
+    n = k + 1
+    s, t = k, 0
+    labels = list(range(n))
+    if rng.random() < 0.3:
+        rng.shuffle(labels)              # other scan orders as well
+    route = [labels[i] for i in range(k, -1, -1)]          # s ... t
+    arcs = []
+    for a, b in zip(route, route[1:]):
+        arcs.append([a, b, rng.randint(1, 2), rng.randint(0, 2)])
+    for _ in range(rng.randint(1, 3)):
+        j = rng.randint(2, k)
+        arcs.append([route[0], route[j], rng.randint(1, 2), rng.randint(3, 12)])
+    if rng.random() < 0.5:
+        i, j = sorted(rng.sample(range(1, k + 1), 2))
+        arcs.append([route[i], route[j], 1, rng.randint(2, 9)])
+    rng.shuffle(arcs)
+    return {"n": n, "arcs": arcs, "s": route[0], "t": route[-1], "labels": "int", "demand": rng.randint(1, 2)}
 
 
 def gen_assign(rng):
